@@ -64,7 +64,16 @@ META = {
             "P_C01 is evaluated on real outputs also for %force_commit rulebooks. Vendor-specific %logic functions are out "
             "of the property's quantifier. Theorems are about the Gallina models; models are tied to /repo by the "
             "correspondence run (generated rulebooks, 8 block vendors). The device itself (Model/Device.v) is a definition "
-            "of the property, not a model of annet code.",
+            "of the property, not a model of annet code. Shipped witness search (testing, harness/shipped_run.py, "
+            "Spec/P_C01s.v): for every undo_redo rule of every shipped *.rul text (chains read by Coq from the RAW lines) "
+            "a pair (old, new) in which one row of the rule changes its text inside its key, under the block headers the "
+            "rule needs, is deployed through the real _diff_and_patch with get_rulebook(hw) (patching AND ordering "
+            "rulebook as shipped); Coq executes the real command paths on the reference device with the FOCUSED rule set "
+            "(the chain alone, headers with default logics - the catch-all `<negation> ~ %global` is not in it, so these "
+            "configurations are inside wf_A_y) and evaluates order_ok / reaches / second patch no-op and empty / second "
+            "diff empty (P_C01s); the runner checks with the real matcher that every row is matched, in the full "
+            "rulebook, by the rule it was built from. This is what turns a failure of C01_shipped_order_ok into a "
+            "concrete non-converging pair.",
 }
 IMPORTS = P.PIPE_IMPORTS + "\nFrom Annet Require Import Model.Device Spec.P_C01 Spec.P_C01o."
 
@@ -745,6 +754,11 @@ def run(ctx):
     from .. import shipped
     sh = {"correspondence": shipped.correspondence(ctx, ID)}
     sh["tables"] = shipped.tables_and_quiet(ctx, ID)
+    # witness search: every shipped undo_redo rule, a row changing its text inside its key under the parents the rule
+    # needs, deployed through the real _diff_and_patch with get_rulebook(hw); Coq executes the real command paths on
+    # the reference device and evaluates P_C01s (Spec/P_C01s.v)
+    from .. import shipped_run
+    sh["runs"] = shipped_run.c01_stage(ctx, ID)
     ctx.coverage["shipped_rules"] = sh
 
 
@@ -850,6 +864,9 @@ def fill_coverage(ctx, cases, outs, res):
 def replay(ctx, doc):
     """re-run the stored chain through the real pipeline and let Coq evaluate P_C01's clauses again"""
     r = doc["replay"]
+    if "hw" in r.get("case", {}) and "path" in r["case"]:
+        from .. import shipped_run
+        return shipped_run.c01_replay(ctx, doc, ID)
     c = dict(r["case"])
     st = r.get("structured")
     out = core.run_impl("c01_runner.py", [c])[0]
